@@ -94,7 +94,7 @@ Definition finding := (N * str)%type.
 
 Definition builtin_fns : list str :=
   [ [102;109;116;46;83;112;114;105;110;116;102]; [102;109;116;46;80;114;105;110;116;108;110]; [102;109;116;46;80;114;105;110;116];
-    [112;114;105;110;116;108;110]; [112;97;110;105;99]; [108;101;110]; [97;112;112;101;110;100]; [115;116;114;105;110;103] ].
+    [112;114;105;110;116;108;110]; [112;97;110;105;99]; [108;101;110]; [97;112;112;101;110;100]; [115;116;114;105;110;103]; [97;110;121] ].
 Definition cast_fns : list str :=
   [ [105;110;116;56]; [105;110;116;49;54]; [105;110;116;51;50]; [105;110;116;54;52]; [117;105;110;116;56]; [117;105;110;116;49;54];
     [117;105;110;116;51;50]; [117;105;110;116;54;52]; [102;108;111;97;116;51;50]; [102;108;111;97;116;54;52]; [105;110;116] ].
@@ -181,7 +181,8 @@ Fixpoint synth (fuel : nat) (sc : list scope) (e : expr) {struct fuel} : gty * l
               match assoc (g_fns g) x with
               | Some (ps, r) => (match r with Some u => u | None => GVoid end, arg_findings args ++ args_ok x args ps)
               | None =>
-                  if list_eqb x s_sprintf || list_eqb x s_string then (GString, arg_findings args)
+                  if list_eqb x s_any then (GName s_any, arg_findings args ++ match args with [_] => [] | _ => [(4, x)] end)
+                  else if list_eqb x s_sprintf || list_eqb x s_string then (GString, arg_findings args)
                   else if list_eqb x s_len then (GName s_int, arg_findings args)
                   else if list_eqb x s_append then (match args with a :: _ => fst (synth fuel sc a) | [] => t end, arg_findings args)
                   else if existsb (list_eqb x) builtin_fns then (GVoid, arg_findings args)
